@@ -38,6 +38,13 @@ func (w *World) payloadSeeds() map[string]string {
 			out[fn+"/"+en] = Memo(f, fe)
 		}
 	}
+	// the same payloads with every member under its SECOND JSON name (camelCase): single-point mutations of these reach what
+	// needs "the other spelling AND something else" on the snake_case seeds
+	for _, n := range []string{"cctp/bps", "hypAll/bps", "internal/fixed"} {
+		if m, ok := out[n]; ok {
+			out[n+"/camel"] = camelCaseMemo(m)
+		}
+	}
 	// the seeds are also the corpus from which the mutator takes KNOWN members to add to same-shaped objects
 	var names, docs []string
 	for n := range out {
@@ -443,4 +450,28 @@ func sortStringsInPlace(s []string) {
 			s[j], s[j-1] = s[j-1], s[j]
 		}
 	}
+}
+
+
+// camelCaseMemo renames every object member of a memo to its camelCase spelling ("@type" and the root key stay).
+func camelCaseMemo(memo string) string {
+	t, err := jparse(memo)
+	if err != nil {
+		return memo
+	}
+	var walk func(n *jnode, depth int)
+	walk = func(n *jnode, depth int) {
+		if n.K == jObj {
+			for i, k := range n.Keys {
+				if depth > 0 && !strings.HasPrefix(k, "@") {
+					n.Keys[i] = toCamel(k)
+				}
+			}
+		}
+		for _, c := range n.Kids {
+			walk(c, depth+1)
+		}
+	}
+	walk(t, 0)
+	return t.String()
 }
